@@ -46,6 +46,8 @@ theorem mem_setTask {s : St} {n t : Task} (h : t ∈ (setTask s n).tasks) : t = 
     (updateSessionTimeout s x n).1.window = s.window := by
   unfold updateSessionTimeout; simp only; splits
 
+@[simp] theorem checkWindowTimeout_fresh (s : St) : (checkWindowTimeout s).fresh = s.fresh := by
+  unfold checkWindowTimeout; splits
 @[simp] theorem checkWindowTimeout_now (s : St) : (checkWindowTimeout s).now = s.now := by
   unfold checkWindowTimeout; splits
 @[simp] theorem updateSessionTimeout_now (s : St) (x : Nat) (n : Bool) :
@@ -200,8 +202,10 @@ theorem session_implies_proof (s : St) (op : Op) :
       (step s op).1.sessions = s.sessions ++
         [{ exch := x, conf := exp, windowOpenAtCreation := true, sameWindowAtCreation := true }] := by
   cases op with
-  | openWin pw secs => left; simp only [step]; splits
-  | openEnh pw secs sl it d => left; simp only [step]; splits
+  | openWin pw secs => left; simp only [step, openWinCore]; splits
+  | openEnh pw secs sl it d => left; simp only [step, openEnhCore]; splits
+  | cmdOpenEnh pw secs sl it d vl => left; simp only [step, openEnhCore]; repeat' (first | (simp; done) | split)
+  | cmdOpenBasic pw secs => left; simp only [step, openWinCore]; repeat' (first | (simp; done) | split)
   | revoke => left; rfl
   | tick ms => left; rfl
   | poll => left; simp [step]
@@ -317,15 +321,27 @@ theorem waitPake3_only_by_valid_pake1 (s : St) (op : Op) (t : Task) (exp : Conf)
       s.window = some w ∧ s.now ≤ w.expiry ∧ exp.pw = w.pw ∧ exp.ctx = ctx ∧ exp.pA = a ∧ wid = w.id := by
   cases op with
   | openWin pw secs =>
-    left; simp only [step] at ht
+    left; simp only [step, openWinCore] at ht
     split at ht
     · exact ht
     · split at ht <;> exact ht
+  | cmdOpenEnh pw secs sl it d vl =>
+    left; simp only [step, openEnhCore] at ht
+    repeat' split at ht
+    all_goals first
+      | exact ht
+      | (simpa using ht)
+  | cmdOpenBasic pw secs =>
+    left; simp only [step, openWinCore] at ht
+    repeat' split at ht
+    all_goals first
+      | exact ht
+      | (simpa using ht)
   | revoke => left; exact ht
   | tick ms => left; exact ht
   | poll => left; simpa [step] using ht
   | openEnh pw secs sl it d =>
-    left; simp only [step] at ht
+    left; simp only [step, openEnhCore] at ht
     repeat' split at ht
     all_goals exact ht
   | pbkdf x r v =>
@@ -408,14 +424,14 @@ theorem step_winInv (s : St) (op : Op) (h : WinInv s.window) : WinInv (step s op
   have h0 : (0 : Nat) < maxFailures := by decide
   cases op with
   | openWin pw secs =>
-    simp only [step]
+    simp only [step, openWinCore]
     split
     · exact h
     · split
       · exact h
       · intro w hw; simp only at hw; injection hw with hw; subst hw; exact h0
   | openEnh pw secs sl it d =>
-    simp only [step]
+    simp only [step, openEnhCore]
     split
     · exact h
     · split
@@ -423,6 +439,20 @@ theorem step_winInv (s : St) (op : Op) (h : WinInv s.window) : WinInv (step s op
       · split
         · exact h
         · intro w hw; simp only at hw; injection hw with hw; subst hw; exact h0
+  | cmdOpenEnh pw secs sl it d vl =>
+    simp only [step, openEnhCore]
+    repeat' split
+    all_goals first
+      | exact h
+      | exact winInv_check h
+      | (intro w hw; simp only at hw; injection hw with hw; subst hw; exact h0)
+  | cmdOpenBasic pw secs =>
+    simp only [step, openWinCore]
+    repeat' split
+    all_goals first
+      | exact h
+      | exact winInv_check h
+      | (intro w hw; simp only at hw; injection hw with hw; subst hw; exact h0)
   | revoke => exact winInv_none
   | tick ms => exact h
   | poll => exact winInv_check h
@@ -560,12 +590,12 @@ theorem sessions_prefix (s : St) (op : Op) : ∃ l, (step s op).1.sessions = s.s
 basic one is refused with `Busy` and changes nothing -/
 theorem single_window_basic (s : St) (w : Window) (pw secs : Nat) (h : s.window = some w) :
     step s (.openWin pw secs) = (s, .errBusy) := by
-  simp [step, h]
+  simp [step, openWinCore, h]
 
 /-- … and so is opening an enhanced one (enhanced over basic, enhanced over enhanced) -/
 theorem single_window_enhanced (s : St) (w : Window) (pw secs sl it d : Nat) (h : s.window = some w) :
     step s (.openEnh pw secs sl it d) = (s, .errBusy) := by
-  simp [step, h]
+  simp [step, openEnhCore, h]
 
 /-- **When `open_comm_window` succeeds**: no window is present, the commissioning timeout lies in
 `MIN..=MAX_COMM_WINDOW_TIMEOUT_SECS` and the salt has 16..=32 bytes. The iteration count is not
@@ -573,7 +603,7 @@ looked at here (that is the cluster handler's check). -/
 theorem openEnh_ok_iff (s : St) (pw secs sl it d : Nat) :
     (step s (.openEnh pw secs sl it d)).2 = .ok ↔
       s.window = none ∧ minWindowSecs ≤ secs ∧ secs ≤ maxWindowSecs ∧ minSaltLen ≤ sl ∧ sl ≤ maxSaltLen := by
-  simp only [step]
+  simp only [step, openEnhCore]
   cases hw : s.window with
   | some w => simp
   | none =>
@@ -599,7 +629,7 @@ theorem openEnh_window (s : St) (pw secs sl it d : Nat) (h : (step s (.openEnh p
       some { id := s.fresh, pw := pw, expiry := s.now + secs * 1000, failures := 0, enhanced := true,
              iterations := it, saltLen := sl, discriminator := d } ∧
     advertisedAs (step s (.openEnh pw secs sl it d)).1 = some (d, true) := by
-  simp only [step] at h ⊢
+  simp only [step, openEnhCore] at h ⊢
   split at h
   · cases h
   · split at h
@@ -612,7 +642,7 @@ theorem openEnh_window (s : St) (pw secs sl it d : Nat) (h : (step s (.openEnh p
 /-- a refused `open_comm_window` changes nothing -/
 theorem openEnh_refused_unchanged (s : St) (pw secs sl it d : Nat)
     (h : (step s (.openEnh pw secs sl it d)).2 ≠ .ok) : (step s (.openEnh pw secs sl it d)).1 = s := by
-  simp only [step] at h ⊢
+  simp only [step, openEnhCore] at h ⊢
   repeat' split
   all_goals first
     | rfl
@@ -622,7 +652,7 @@ theorem openEnh_refused_unchanged (s : St) (pw secs sl it d : Nat)
 theorem openWin_window (s : St) (pw secs : Nat) (h : (step s (.openWin pw secs)).2 = .ok) :
     ∃ w, (step s (.openWin pw secs)).1.window = some w ∧ w.pw = pw ∧ w.enhanced = false ∧
       w.iterations = builtinIterations ∧ w.saltLen = maxSaltLen ∧ w.expiry = s.now + secs * 1000 ∧ w.failures = 0 := by
-  simp only [step] at h ⊢
+  simp only [step, openWinCore] at h ⊢
   split at h
   · cases h
   · split at h
@@ -630,10 +660,105 @@ theorem openWin_window (s : St) (pw secs : Nat) (h : (step s (.openWin pw secs))
     · rename_i h1 h2
       simp [h1, h2]
 
+/-! ## The cluster commands `OpenCommissioningWindow` / `OpenBasicCommissioningWindow` (`adm_comm.rs`) -/
+
+/-- the handler's salt bounds are those of `Pase::validate_salt_len`: a command that passed the handler's
+check is never refused with `ConstraintError` below -/
+theorem adm_salt_bounds_agree : admMinSaltLen = minSaltLen ∧ admMaxSaltLen = maxSaltLen := by decide
+
+/-- the legal PBKDF range of the specification: 1000..=100000 iterations, 16..=32 bytes of salt, a 97-byte verifier -/
+theorem adm_bounds : admMinIterations = 1000 ∧ admMaxIterations = 100000 ∧ admMinSaltLen = 16 ∧ admMaxSaltLen = 32 ∧
+    admVerifierLen = 97 := by decide
+
+/-- illegal PBKDF parameters: `PAKEParameterError`, and nothing changes (an expired window is not even looked at) -/
+theorem cmdOpenEnh_param_error (s : St) (pw secs sl it d vl : Nat)
+    (h : it < admMinIterations ∨ it > admMaxIterations ∨ sl < admMinSaltLen ∨ sl > admMaxSaltLen ∨ vl ≠ admVerifierLen) :
+    step s (.cmdOpenEnh pw secs sl it d vl) = (s, .errPakeParam) := by
+  simp only [step]
+  by_cases h1 : it < admMinIterations ∨ it > admMaxIterations
+  · simp [h1]
+  · by_cases h2 : sl < admMinSaltLen ∨ sl > admMaxSaltLen
+    · simp [h1, h2]
+    · have h3 : vl ≠ admVerifierLen := by
+        rcases h with h | h | h | h | h
+        · exact absurd (Or.inl h) h1
+        · exact absurd (Or.inr h) h1
+        · exact absurd (Or.inl h) h2
+        · exact absurd (Or.inr h) h2
+        · exact h
+      simp [h1, h2, h3]
+
+/-- with legal parameters the command is: expiry check, then `Pase::open_comm_window` -/
+theorem cmdOpenEnh_valid (s : St) (pw secs sl it d vl : Nat)
+    (hp : ¬ (it < admMinIterations ∨ it > admMaxIterations)) (hs : ¬ (sl < admMinSaltLen ∨ sl > admMaxSaltLen))
+    (hv : vl = admVerifierLen) :
+    step s (.cmdOpenEnh pw secs sl it d vl) =
+      ((step (checkWindowTimeout s) (.openEnh pw secs sl it d)).1,
+        if (step (checkWindowTimeout s) (.openEnh pw secs sl it d)).2 = .errBusy then .errClusterBusy
+        else (step (checkWindowTimeout s) (.openEnh pw secs sl it d)).2) := by
+  have h1 : (decide (it < admMinIterations) || decide (it > admMaxIterations)) = false := by simpa using hp
+  have h2 : (decide (sl < admMinSaltLen) || decide (sl > admMaxSaltLen)) = false := by simpa using hs
+  have h3 : (vl != admVerifierLen) = false := by simp [hv]
+  simp only [step, h1, h2, h3, Bool.false_eq_true, if_false]
+  rfl
+
+/-- **An accepted `OpenCommissioningWindow` has legal PBKDF parameters** and the window then announces
+exactly these (so what the responder sends in PBKDFParamResponse is in the legal range), with the
+supplied discriminator, its own expiry and no failures -/
+theorem cmdOpenEnh_ok (s : St) (pw secs sl it d vl : Nat) (h : (step s (.cmdOpenEnh pw secs sl it d vl)).2 = .ok) :
+    admMinIterations ≤ it ∧ it ≤ admMaxIterations ∧ admMinSaltLen ≤ sl ∧ sl ≤ admMaxSaltLen ∧ vl = admVerifierLen ∧
+    minWindowSecs ≤ secs ∧ secs ≤ maxWindowSecs ∧
+    (step s (.cmdOpenEnh pw secs sl it d vl)).1.window =
+      some { id := s.fresh, pw := pw, expiry := s.now + secs * 1000, failures := 0, enhanced := true,
+             iterations := it, saltLen := sl, discriminator := d } := by
+  by_cases hbad : it < admMinIterations ∨ it > admMaxIterations ∨ sl < admMinSaltLen ∨ sl > admMaxSaltLen ∨ vl ≠ admVerifierLen
+  · rw [cmdOpenEnh_param_error s pw secs sl it d vl hbad] at h
+    cases h
+  · have hp : ¬ (it < admMinIterations ∨ it > admMaxIterations) := fun hh => hbad (by omega)
+    have hs : ¬ (sl < admMinSaltLen ∨ sl > admMaxSaltLen) := fun hh => hbad (by omega)
+    have hv : vl = admVerifierLen := Decidable.byContradiction (fun hh => hbad (Or.inr (Or.inr (Or.inr (Or.inr hh)))))
+    rw [cmdOpenEnh_valid s pw secs sl it d vl hp hs hv] at h ⊢
+    simp only at h ⊢
+    have hok : (step (checkWindowTimeout s) (.openEnh pw secs sl it d)).2 = .ok := by
+      split at h
+      · cases h
+      · exact h
+    obtain ⟨_, h1, h2, _, _⟩ := (openEnh_ok_iff _ pw secs sl it d).mp hok
+    have hw := (openEnh_window _ pw secs sl it d hok).1
+    simp only [checkWindowTimeout_fresh, checkWindowTimeout_now] at hw
+    exact ⟨by omega, by omega, by omega, by omega, hv, h1, h2, hw⟩
+
+/-- **Single-window rule of the commands**: while an *unexpired* window is present both commands answer the
+cluster status `Busy` and change nothing -/
+theorem cmd_single_window (s : St) (w : Window) (hw : s.window = some w) (hlive : s.now ≤ w.expiry)
+    (pw secs : Nat) : step s (.cmdOpenBasic pw secs) = (s, .errClusterBusy) := by
+  have hc : checkWindowTimeout s = s := by
+    unfold checkWindowTimeout; simp only [hw]; split
+    · omega
+    · rfl
+  simp [step, openWinCore, hc, hw]
+
+theorem cmd_single_window_enh (s : St) (w : Window) (hw : s.window = some w) (hlive : s.now ≤ w.expiry)
+    (pw secs sl it d vl : Nat) (hp : ¬ (it < admMinIterations ∨ it > admMaxIterations)) (hs : ¬ (sl < admMinSaltLen ∨ sl > admMaxSaltLen))
+    (hv : vl = admVerifierLen) : step s (.cmdOpenEnh pw secs sl it d vl) = (s, .errClusterBusy) := by
+  have hc : checkWindowTimeout s = s := by
+    unfold checkWindowTimeout; simp only [hw]; split
+    · omega
+    · rfl
+  simp [step, openEnhCore, hc, hw, hp, hs, hv]
+
+/-- … whereas an *expired* window that nobody polled does not block the commands (they run the expiry
+check first) - it does block `Matter::open_basic_comm_window` / `Pase::open_comm_window` (`single_window_*`) -/
+theorem cmd_replaces_expired_window (s : St) (w : Window) (hw : s.window = some w) (hexp : s.now > w.expiry)
+    (pw secs : Nat) (h1 : minWindowSecs ≤ secs) (h2 : secs ≤ maxWindowSecs) :
+    (step s (.cmdOpenBasic pw secs)).2 = .ok := by
+  have hc : (checkWindowTimeout s).window = none := by
+    unfold checkWindowTimeout; simp only [hw, hexp, if_true]
+  have hr : ¬ (secs < minWindowSecs ∨ secs > maxWindowSecs) := by omega
+  simp [step, openWinCore, hc, hr]
+
 /-! ## The proof a session rests on is a proof for the verifier of the window that is open -/
 
-@[simp] theorem checkWindowTimeout_fresh (s : St) : (checkWindowTimeout s).fresh = s.fresh := by
-  unfold checkWindowTimeout; splits
 @[simp] theorem recordFailure_fresh (s : St) : (recordFailure s).fresh = s.fresh := by
   unfold recordFailure; simp only; splits
 @[simp] theorem removeTask_fresh (s : St) (x : Nat) : (removeTask s x).fresh = s.fresh := rfl
@@ -721,37 +846,50 @@ theorem step_fresh_le (s : St) (op : Op) : s.fresh ≤ (step s op).1.fresh := by
         rw [(addSlot_core h1).2.2.2.2.2] at this
         exact this
   | _ =>
-    simp only [step]
+    simp only [step, openWinCore, openEnhCore]
     repeat' split
     all_goals simp
 
 /-- what a step can do to the window: keep it (perhaps closed, perhaps with one more failure), or -
-only when none is present - open a new one whose identity is fresh -/
+(when none is present, or - the cluster commands - when the present one has expired) open a new one
+whose identity is fresh -/
 theorem step_window_frame (s : St) (op : Op) :
     WinKeep s.window (step s op).1.window ∨
-    (s.window = none ∧ ∃ w', (step s op).1.window = some w' ∧ w'.id = s.fresh ∧
+    (∃ w', (step s op).1.window = some w' ∧ w'.id = s.fresh ∧
       (step s op).1.fresh = s.fresh + 1 ∧ (step s op).1.tasks = s.tasks) := by
   cases op with
   | openWin pw secs =>
-    simp only [step]
+    simp only [step, openWinCore]
     split
     · left; exact winKeep_refl _
     · split
       · left; exact winKeep_refl _
-      · rename_i hw _
-        right
-        refine ⟨by simpa using hw, _, rfl, rfl, rfl, rfl⟩
+      · right
+        exact ⟨_, rfl, rfl, rfl, rfl⟩
   | openEnh pw secs sl it d =>
-    simp only [step]
+    simp only [step, openEnhCore]
     split
     · left; exact winKeep_refl _
     · split
       · left; exact winKeep_refl _
       · split
         · left; exact winKeep_refl _
-        · rename_i hw _ _
-          right
-          refine ⟨by simpa using hw, _, rfl, rfl, rfl, rfl⟩
+        · right
+          exact ⟨_, rfl, rfl, rfl, rfl⟩
+  | cmdOpenEnh pw secs sl it d vl =>
+    simp only [step, openEnhCore]
+    repeat' split
+    all_goals first
+      | (left; exact winKeep_refl _)
+      | (left; exact winKeep_check (winKeep_refl _))
+      | (right; exact ⟨_, rfl, by simp, by simp, by simp⟩)
+  | cmdOpenBasic pw secs =>
+    simp only [step, openWinCore]
+    repeat' split
+    all_goals first
+      | (left; exact winKeep_refl _)
+      | (left; exact winKeep_check (winKeep_refl _))
+      | (right; exact ⟨_, rfl, by simp, by simp, by simp⟩)
   | revoke => left; exact winKeep_none _
   | tick ms => left; exact winKeep_refl _
   | poll => left; exact winKeep_check (winKeep_refl _)
@@ -841,13 +979,13 @@ theorem step_widInv (s : St) (op : Op) (h : WidInv s) : WidInv (step s op).1 := 
     · exact Nat.lt_of_lt_of_le (h.task_lt t hold exp wid h2) hf
     · rw [hwid]; exact Nat.lt_of_lt_of_le (h.win_lt w hwin) hf
   · intro w' hw'
-    rcases hw with hk | ⟨_, w2, hw2, hid, hfr, _⟩
+    rcases hw with hk | ⟨w2, hw2, hid, hfr, _⟩
     · obtain ⟨w, h0, h1, _, _⟩ := hk w' hw'
       rw [h1]; exact Nat.lt_of_lt_of_le (h.win_lt w h0) hf
     · rw [hw2] at hw'; injection hw' with hw'; subst hw'
       rw [hid, hfr]; exact Nat.lt_succ_self _
   · intro t h1 exp wid w' h2 hw' hid'
-    rcases hw with hk | ⟨hnone, w2, hw2, hid, _, htasks⟩
+    rcases hw with hk | ⟨w2, hw2, hid, _, htasks⟩
     · obtain ⟨w, h0, hi, hp, _⟩ := hk w' hw'
       rcases ht t exp wid h1 h2 with hold | ⟨a, ctx, w1, t0, _, _, _, hwin, _, hpw, _, _, hwid⟩
       · rw [hp]; exact h.bound t hold exp wid w h2 h0 (by rw [← hi]; exact hid')
@@ -1275,13 +1413,21 @@ theorem tableInv_failTask {s u : St} {x : Nat} (h : TableInv s) (ht : u.tasks = 
 theorem step_tableInv (s : St) (op : Op) (h : TableInv s) : TableInv (step s op).1 := by
   cases op with
   | openWin pw secs =>
-    simp only [step]
+    simp only [step, openWinCore]
     repeat' split
     all_goals exact tableInv_congr h rfl rfl rfl
   | openEnh pw secs sl it d =>
-    simp only [step]
+    simp only [step, openEnhCore]
     repeat' split
     all_goals exact tableInv_congr h rfl rfl rfl
+  | cmdOpenEnh pw secs sl it d vl =>
+    simp only [step, openEnhCore]
+    repeat' split
+    all_goals exact tableInv_congr h (by simp) (by simp) (by simp)
+  | cmdOpenBasic pw secs =>
+    simp only [step, openWinCore]
+    repeat' split
+    all_goals exact tableInv_congr h (by simp) (by simp) (by simp)
   | revoke => exact tableInv_congr h rfl rfl rfl
   | tick ms => exact tableInv_congr h rfl rfl rfl
   | poll => exact tableInv_congr h (by simp [step]) (by simp [step]) (by simp [step])
@@ -1611,10 +1757,14 @@ theorem pbkdfNew_holder {s : St} (x : Nat) (r : Req) (v : Option VClass) (h : Ho
 
 theorem step_holder (s : St) (op : Op) (h : HolderInv s) : HolderInv (step s op).1 := by
   cases op with
-  | openWin pw secs => simp only [step]; repeat' split
+  | openWin pw secs => simp only [step, openWinCore]; repeat' split
                        all_goals exact holder_congr h rfl rfl
-  | openEnh pw secs sl it d => simp only [step]; repeat' split
+  | openEnh pw secs sl it d => simp only [step, openEnhCore]; repeat' split
                                all_goals exact holder_congr h rfl rfl
+  | cmdOpenEnh pw secs sl it d vl => simp only [step, openEnhCore]; repeat' split
+                                     all_goals exact holder_congr h (by simp) (by simp)
+  | cmdOpenBasic pw secs => simp only [step, openWinCore]; repeat' split
+                            all_goals exact holder_congr h (by simp) (by simp)
   | revoke => exact holder_congr h rfl rfl
   | tick ms => exact holder_congr h rfl rfl
   | poll => exact holder_congr h (by simp [step]) (by simp [step])
@@ -1761,6 +1911,19 @@ example : (run {} [.openEnh 9 180 16 1000 5, .pbkdf 1 .good none, .pake1 1 (.val
 example : ∃ s sess, sess ∈ (step s (.pake3 1 (.mac confEnh))).1.sessions ∧ sess ∉ s.sessions :=
   ⟨run {} [.openEnh 9 180 16 1000 5, .pbkdf 1 .good none, .pake1 1 (.valid 5)],
     { exch := 1, conf := confEnh, windowOpenAtCreation := true, sameWindowAtCreation := true }, by decide, by decide⟩
+
+/-- `cmdOpenEnh_ok` / `cmdOpenEnh_param_error`: the bounds both ways -/
+example : (step {} (.cmdOpenEnh 9 180 16 1000 5 97)).2 = .ok := by decide
+example : (step {} (.cmdOpenEnh 9 180 32 100000 5 97)).2 = .ok := by decide
+example : (step {} (.cmdOpenEnh 9 180 16 999 5 97)).2 = .errPakeParam := by decide
+example : (step {} (.cmdOpenEnh 9 180 16 100001 5 97)).2 = .errPakeParam := by decide
+example : (step {} (.cmdOpenEnh 9 180 15 1000 5 97)).2 = .errPakeParam := by decide
+example : (step {} (.cmdOpenEnh 9 180 33 1000 5 97)).2 = .errPakeParam := by decide
+example : (step {} (.cmdOpenEnh 9 180 16 1000 5 96)).2 = .errPakeParam := by decide
+/-- `cmd_single_window` / `cmd_replaces_expired_window`: hypotheses satisfiable -/
+example : (step (run {} [.openEnh 9 180 16 1000 5]) (.cmdOpenBasic 7 180)).2 = .errClusterBusy := by decide
+example : (step (run {} [.openEnh 9 180 16 1000 5, .tick 180001]) (.cmdOpenBasic 7 180)).2 = .ok := by decide
+example : (step (run {} [.openEnh 9 180 16 1000 5, .tick 180001]) (.openWin 7 180)).2 = .errBusy := by decide
 
 /-- `redelivery_is_noop`: every message of the honest handshake delivered twice - one session, no failure -/
 def honestTwice : List Ev :=
